@@ -62,9 +62,10 @@ def run(ctx):
     # 3. the same algorithm with the three named repairs satisfies all five predicates (same bounds)
     vlib.tlc_model(ctx, "SampleBuilder", "SampleBuilder_RingABC" + q, workers=6)
     # 4. as is, one purgeBuffers call can iterate over the whole ring (filled.head overtakes filled.tail)
-    ov = vlib.tlc_expect_violation(ctx, "SampleBuilder", "SampleBuilder_RingOvershoot", workers=2)
-    ctx.cov["asis_model_overshoot"] = next((ln for ln in ov.stdout.splitlines() if ln.startswith("Error: Invariant")),
-                                           "none (rc=%s)" % ov.rc)
+    if not quick:
+        ov = vlib.tlc_expect_violation(ctx, "SampleBuilder", "SampleBuilder_RingOvershoot", workers=2)
+        ctx.cov["asis_model_overshoot"] = next((ln for ln in ov.stdout.splitlines() if ln.startswith("Error: Invariant")),
+                                               "none (rc=%s)" % ov.rc)
 
     # 5. sessions: TLC's counterexamples first, then seeded -simulate runs of the generator (modulus 2^16)
     vecs = []
@@ -78,10 +79,12 @@ def run(ctx):
     # a seeded subset of the exhaustively enumerated sessions is judged by TLC like all others
     sub = list(conf)
     ctx.rng.shuffle(sub)
-    vecs += [dict(c) for c in sub[:150 if quick else 1200]]
+    vecs += [dict(c) for c in [c for c in sub if c["delay"] == 0][:150 if quick else 1100]]
+    vecs += [dict(c) for c in [c for c in sub if c["delay"] > 0][:60]]
     n_model = len(vecs)
-    vecs += simulate(ctx, "SampleBuilder_SimMix", 250 if quick else 2500)
-    vecs += simulate(ctx, "SampleBuilder_SimClean", 200 if quick else 2000)
+    vecs += simulate(ctx, "SampleBuilder_SimMix", 450 if quick else 2500)
+    if not quick:
+        vecs += simulate(ctx, "SampleBuilder_SimClean", 2000)
     vecs += simulate(ctx, "SampleBuilder_SimDelay", 8 if quick else 60)
     tsbacks = [0, 1, 2999, 3000, 3001, 9000, 45000, 100000, 10 ** 9]
     for v in vecs:
@@ -101,8 +104,12 @@ def run(ctx):
     #     (a seeded subset of 30 000 when there are more) output is compared with the model's prediction.  A difference is model drift (reported in the
     #     evidence), never a verdict: verdicts come from the normative predicates only.
     ctx.cov["exhaustive_sessions_enumerated"] = len(conf)
-    if len(conf) > 30000:          # seeded subset; the number replayed is stated in the evidence
-        conf = sub[:30000]
+    # seeded subset when there are many; sessions with WithMaxTimeDelay are kept few because Flush can take about
+    # a second on them (it walks the whole 16-bit ring, see the model's ModelFilledSane); the numbers replayed are
+    # stated in the evidence
+    slow = [c for c in sub if c["delay"] > 0][:300]
+    conf = [c for c in sub if c["delay"] == 0][:30000] + slow
+    ctx.cov["conformance_sessions_with_time_delay"] = len(slow)
     for i, c in enumerate(conf):
         c["id"] = i
         c["tsBack"] = tsbacks[i % len(tsbacks)]
